@@ -423,7 +423,7 @@ let dispatch (f : string list) (line : string) =
   | "deep" :: [kind; d; ok] ->
       bump counts ("deep-" ^ kind ^ "-" ^ d ^ "-" ^ ok);
       if ok <> "true" && int_of_string d <= 3000 then
-        fail "oracle:C09:deep-nesting" ("well-formed input nested " ^ d ^ " deep is not parsed to the term it denotes") line;
+        fail "oracle:C09:deep-nesting" ("well-formed input (" ^ kind ^ ", size/depth " ^ d ^ ") is not parsed to the term it denotes") line;
       note_nontrivial ("deep" ^ kind ^ d)
   | "display" :: r -> bump counts "display"; do_display r line
   | "debug" :: r -> bump counts "debug"; do_debug r line
